@@ -136,10 +136,26 @@ func workerHammer(holders, millis, seed int) string {
 	var w bigbuff.Worker
 	var held, bad, instances atomic.Int64
 	var nilStop atomic.Int64
+	var helpers sync.WaitGroup
+	var neverStopped atomic.Int64
 	fn := func(stop <-chan struct{}) {
-		instances.Add(1)
+		k := instances.Add(1)
 		if stop == nil {
 			nilStop.Add(1) // an instance that can never be told to stop
+			return
+		}
+		if k%3 == 0 {
+			// an instance that returns on its own and leaves a helper behind: the helper must still be told to stop when the
+			// last holder is done (the stop channel is closed whether or not the function has already returned)
+			helpers.Add(1)
+			go func() {
+				defer helpers.Done()
+				select {
+				case <-stop:
+				case <-time.After(3 * time.Second):
+					neverStopped.Add(1)
+				}
+			}()
 			return
 		}
 		<-stop
@@ -171,6 +187,10 @@ func workerHammer(holders, millis, seed int) string {
 	}
 	if !waitTimeout(&wg, stepTimeout) {
 		return "stuck"
+	}
+	helpers.Wait()
+	if n := neverStopped.Load(); n > 0 {
+		return fmt.Sprintf("held_when_stopped=%d stop_channels_never_closed=%d", bad.Load(), n)
 	}
 	if n := nilStop.Load(); n > 0 {
 		return fmt.Sprintf("held_when_stopped=%d instances_without_a_stop_channel=%d", bad.Load(), n)
